@@ -38,12 +38,18 @@ THEOREMS = [P + n for n in (
     'roundtrip_after_c10_history', 'roundtrip_after_c11_history',
     # round 4 / 4b: a path handed over as pathlib.Path / os.PathLike / bytes (covered by the guard like a str)
     'no_overwrite_guard_pathlike', 'existing_path_never_replaced', 'pkl_path_exact',
-    'autodetect_str_only')]
+    'autodetect_str_only',
+    # round 6: falsy-but-valid field values; the field accesses of *_from_dict as coded
+    'from_dict_fields_table', 'fromDictC_eq_fromDict', 'falsy_fields_roundtrip')]
 RULE = ('one PRNG; a case = 1-3 objects of the five kinds (RDMs, Dataset / DatasetBase / TemporalDataset, 5 model '
         'classes, Result from constructor or 5 evaluators; sizes 1-13, values incl. NaN/inf/-0; descriptor values: '
         'str / unicode / empty / long str, int / float / bool / None, numpy scalars and small dtypes, list / tuple / '
         '0-d to 2-d arrays / empty arrays / string arrays / object arrays, lists that are no arrays (ragged, mixed '
-        'with None) in every descriptor position, dicts nested two deep, absent measure) after 0-3 structural '
+        'with None) in every descriptor position, dicts nested two deep, absent measure; falsy-but-valid values in '
+        'every field of every kind: dof 0 (eval_fixed on one RDM; hand-built with / without variances), noise '
+        'ceiling 0.0, zero evaluations / variances / data, n_rdm / n_pattern None or 0, empty-string names / '
+        'methods / measures, descriptor values 0 / 0.0 / -0.0 / False / "" / [] / () / {} / array(0) / numpy zero '
+        'scalars, all-falsy per-element descriptors, models without RDMs or parameters) after 0-3 structural '
         'operations, then 2-8 save/load operations (hdf5|pkl or save\'s defaults, path with 19 name endings | '
         'named handle | memory handle, overwrite on/off, fresh|existing, second saves into a used handle, '
         'load with / without file_type; every path handed over, per operation, as str | pathlib.Path | another '
@@ -72,6 +78,16 @@ BRANCHES = ['kind:rdms', 'kind:dataset', 'kind:temporal', 'kind:model', 'kind:re
             'via:bytes:existing-overwrite', 'via:nonstr:existing-other-kind', 'load:missing-then-save']
 BRANCHES += ['via:nonstr:fresh:' + k for k in ('rdms', 'dataset', 'model', 'result')] \
     + ['via:nonstr:existing-overwrite:' + k for k in ('rdms', 'dataset', 'model', 'result')]
+# round 6: falsy-but-valid field values (what `x or default` / `if x:` would replace)
+FALSY_TAGS = ['falsy:dof0', 'falsy:dof0:eval', 'falsy:dof0:variances', 'falsy:dof0:hdf5', 'falsy:dof0:pkl',
+              'falsy:nc0', 'falsy:evals0', 'falsy:variances0', 'falsy:n-none', 'falsy:n-zero',
+              'falsy:empty-str', 'falsy:empty-name', 'falsy:empty-method', 'falsy:measure-empty',
+              'falsy:measure-none', 'falsy:zero-descriptor', 'falsy:false-descriptor',
+              'falsy:empty-list-descriptor', 'falsy:none-descriptor', 'falsy:zero-elem-descriptor',
+              'falsy:empty-str-elem-descriptor', 'falsy:model-noparams', 'falsy:model-no-rdm', 'falsy:zero-data',
+              'falsy:kind:rdms', 'falsy:kind:dataset', 'falsy:kind:temporal', 'falsy:kind:model',
+              'falsy:kind:result']
+BRANCHES += FALSY_TAGS
 ASSUMPTIONS = [
     'strings contain no NUL character (h5py rejects them in attributes, numpy strips trailing NULs in fixed-width '
     'arrays); integers fit int64; an array-like list does not mix bare numbers with strings (numpy would stringify the '
@@ -425,9 +441,10 @@ def gen_result(rng, uni, many=None):
             'cv_method': rng.choice(['fixed', 'bootstrap_rdm', 'bootstrap_pattern', 'bootstrap', 'dual_bootstrap',
                                      'crossvalidation', 'bootstrap_crossval', 'test_cv', 'Fixed', _s(rng, uni) or 'cv']),
             'fitter': rng.random() < 0.3,
-            'variances': None, 'var_shape': var_shape, 'dof': rng.randint(1, 9),
-            'n_rdm': rng.choice([None, rng.randint(2, 9)]),
-            'n_pattern': rng.choice([None, rng.randint(2, 9)])}
+            'variances': None, 'var_shape': var_shape, 'dof': rng.choice([0, rng.randint(1, 9), rng.randint(1, 9)]),
+            # (never 1: the constructor divides by n - 1)
+            'n_rdm': rng.choice([None, rng.randint(2, 9), rng.choice([0, 0, 2, 5])]),
+            'n_pattern': rng.choice([None, rng.randint(2, 9), rng.choice([0, 0, 3, 7])])}
     if var_shape is not None:
         n = math.prod(var_shape)
         vals = [rng.randint(1, 16) / 16 for _ in range(n)]
@@ -446,6 +463,8 @@ def gen_result(rng, uni, many=None):
 def gen_obj(rng, kind=None):
     uni = rng.choice([0.0, 0.0, 0.25])
     kind = kind or rng.choice(['rdms', 'rdms', 'dataset', 'temporal', 'model', 'result'])
+    if rng.random() < 0.08:        # falsy-but-valid field values also inside the random sessions
+        return falsy_obj(rng, kind)
     if kind == 'rdms':
         return gen_rdms(rng, uni)
     if kind == 'dataset':
@@ -455,6 +474,165 @@ def gen_obj(rng, kind=None):
     if kind == 'model':
         return gen_model(rng, uni)
     return gen_result(rng, uni)
+
+
+# ------------------------------------------------------------- falsy-but-valid field values (round 6)
+
+def _falsy_obj_desc(rng):
+    """a per-object descriptor value that is valid and falsy in Python's sense"""
+    return rng.choice([
+        {'py': 'int', 'v': 0}, {'py': 'float', 'v': 0.0}, {'py': 'float', 'v': '-0.0'},
+        {'py': 'bool', 'v': False}, {'py': 'str', 'v': ''}, {'py': 'list', 'v': []}, {'py': 'tuple', 'v': []},
+        {'py': 'none'}, {'py': 'dict', 'v': []}, {'py': 'nd', 'dtype': 'f', 'shape': [], 'v': [0]},
+        {'py': 'nd', 'dtype': 'i', 'shape': [], 'v': [0]}, {'py': 'nd', 'dtype': 'f', 'shape': [0], 'v': []},
+        {'py': 'npscalar', 'dtype': rng.choice(['float32', 'int8', 'int64', 'float64']), 'v': 0},
+        {'py': 'npscalar', 'dtype': 'bool_', 'v': False},
+        {'py': 'list', 'v': [{'py': 'int', 'v': 0}]}, {'py': 'nd', 'dtype': 'f', 'shape': [2], 'v': [0, 0]}])
+
+
+def _falsy_elem_desc(rng, n):
+    """a per-element descriptor all of whose entries are falsy"""
+    t = rng.choice(['int', 'float', 'bool', 'str', 'nd_int', 'nd_str', 'nd_bool'])
+    if t == 'int':
+        return {'py': 'list', 'v': [{'py': 'int', 'v': 0} for _ in range(n)]}
+    if t == 'float':
+        return {'py': 'list', 'v': [{'py': 'float', 'v': rng.choice([0.0, '-0.0'])} for _ in range(n)]}
+    if t == 'bool':
+        return {'py': 'list', 'v': [{'py': 'bool', 'v': False} for _ in range(n)]}
+    if t == 'str':
+        return {'py': 'list', 'v': [{'py': 'str', 'v': ''} for _ in range(n)]}
+    if t == 'nd_int':
+        return {'py': 'nd', 'dtype': 'i', 'shape': [n], 'v': [0] * n}
+    if t == 'nd_bool':
+        return {'py': 'nd', 'dtype': 'bool_', 'shape': [n], 'v': [0] * n}
+    return {'py': 'nd', 'dtype': 'U', 'shape': [n], 'v': [''] * n}
+
+
+def _falsy_descs(rng, k=None):
+    keys = rng.sample(KEYS, k or rng.randint(2, 4))
+    return [[kk, _falsy_obj_desc(rng)] for kk in keys]
+
+
+def falsy_rdms(rng, n_rdm=None, n_cond=None, zero=None):
+    n_rdm, n_cond = n_rdm or rng.randint(1, 3), n_cond or rng.randint(2, 4)
+    npair = n_cond * (n_cond - 1) // 2
+    zero = rng.random() < 0.6 if zero is None else zero
+    return {'kind': 'rdms',
+            'dis': [[0.0 if zero else rng.randint(0, 8) / 8 for _ in range(npair)] for _ in range(n_rdm)],
+            'measure': rng.choice([None, '', '']), 'descriptors': _falsy_descs(rng),
+            'rdm_descriptors': [[k, _falsy_elem_desc(rng, n_rdm)] for k in rng.sample(KEYS, rng.randint(0, 2))],
+            'pattern_descriptors': [[k, _falsy_elem_desc(rng, n_cond)] for k in rng.sample(KEYS, rng.randint(0, 2))]}
+
+
+def falsy_dataset(rng, temporal=False):
+    n_obs, n_ch = rng.randint(1, 3), rng.randint(1, 3)
+    shape = [n_obs, n_ch] + ([rng.randint(1, 3)] if temporal else [])
+    zero = rng.random() < 0.6
+    spec = {'kind': 'dataset', 'cls': None, 'shape': shape,
+            'meas': [0.0 if zero else rng.randint(-4, 4) / 4 for _ in range(math.prod(shape))],
+            'descriptors': _falsy_descs(rng),
+            'obs_descriptors': [[k, _falsy_elem_desc(rng, n_obs)] for k in rng.sample(KEYS, rng.randint(1, 2))],
+            'channel_descriptors': [[k, _falsy_elem_desc(rng, n_ch)]
+                                    for k in rng.sample(KEYS, rng.randint(0, 2))]}
+    if temporal:      # the time axis itself: a single time point 0.0
+        nt = shape[2]
+        spec['time_descriptors'] = [['time', {'py': 'nd', 'dtype': 'f', 'shape': [nt],
+                                              'v': [i / 4 for i in range(nt)]}]]
+    return spec
+
+
+def falsy_model(rng, n_cond=None, mtype=None):
+    mtype = mtype or rng.choice(['Model', 'ModelFixed', 'ModelFixed', 'ModelWeighted', 'ModelSelect'])
+    name = rng.choice(['', '', 'm'])
+    if mtype == 'Model':                 # no RDMs, no parameters
+        return {'kind': 'model', 'type': mtype, 'name': name}
+    n_cond = n_cond or rng.randint(2, 4)
+    npair = n_cond * (n_cond - 1) // 2
+    if rng.random() < 0.5:
+        src = falsy_rdms(rng, n_rdm=1 if mtype == 'ModelFixed' else 2, n_cond=n_cond)
+    else:
+        rows = 1 if mtype == 'ModelFixed' else 2
+        src = {'vec': [0.0 if rng.random() < 0.5 else 1.0 for _ in range(npair * rows)], 'rows': rows}
+    return {'kind': 'model', 'type': mtype, 'name': name, 'rdm': src}
+
+
+def falsy_result(rng, how=None):
+    """Results with falsy fields: dof 0 (what `eval_fixed` records for data holding one RDM; a
+    hand-built one with variances has NaN t-test outputs), noise ceiling 0.0, all-zero evaluations
+    and variances, n_rdm / n_pattern None or 0, '' as method / cv_method / model name"""
+    how = how or rng.choice(['eval', 'ctor', 'ctor', 'ctor-var'])
+    n_cond = rng.randint(3, 4)
+    npair = n_cond * (n_cond - 1) // 2
+    if how == 'eval':
+        n_model = rng.randint(1, 2)
+        data = {'kind': 'rdms', 'dis': [[rng.randint(1, 40) / 8 for _ in range(npair)]], 'measure': None,
+                'descriptors': [], 'rdm_descriptors': [], 'pattern_descriptors': []}
+        models = [{'kind': 'model', 'type': 'ModelFixed', 'name': rng.choice(['', 'm%d' % i]),
+                   'rdm': {'vec': [rng.randint(1, 40) / 8 for _ in range(npair)], 'rows': 1}}
+                  for i in range(n_model)]
+        return {'kind': 'result', 'how': 'eval', 'data': data, 'models': models, 'evaluator': 'fixed',
+                'method': rng.choice(['cosine', 'corr']), 'N': 4, 'seed': rng.randint(0, 10 ** 6)}
+    n_model = rng.randint(1, 3)
+    models = [falsy_model(rng, n_cond=n_cond, mtype=rng.choice(['ModelFixed', 'ModelFixed', 'ModelWeighted']))
+              for _ in range(n_model)]
+    nb = rng.randint(1, 3)
+    zero_ev = rng.random() < 0.6
+    spec = {'kind': 'result', 'how': 'ctor', 'models': models,
+            'evaluations': [0.0 if zero_ev else rng.randint(-8, 8) / 8 for _ in range(nb * n_model)],
+            'ev_shape': [nb, n_model], 'noise_ceiling': [0.0, rng.choice([0.0, 0.0, 0.5])], 'nc_shape': [2],
+            'method': rng.choice(['', '', 'cosine']), 'cv_method': rng.choice(['', '', 'fixed']),
+            'fitter': False, 'variances': None, 'var_shape': None,
+            'dof': rng.choice([0, 0, 0, 1]),
+            # (never 1: the constructor divides by n - 1)
+            'n_rdm': rng.choice([None, 0, 0, 2]), 'n_pattern': rng.choice([None, 0, 0, 2])}
+    if how in ('ctor-var', 'ctor-var0'):
+        vk = rng.choice(['1d', '2d', '2d0']) if how == 'ctor-var' else rng.choice(['1d0', '2d0'])
+        if vk in ('1d', '1d0'):
+            spec['var_shape'] = [n_model]
+            spec['variances'] = [0.0 if vk == '1d0' else rng.choice([0.0, 0.25, 0.5]) for _ in range(n_model)]
+        else:
+            spec['var_shape'] = [n_model, n_model]
+            spec['variances'] = [0.0 if vk == '2d0' else (1 + i / 4 if i == j else 1 / 8)
+                                 for i in range(n_model) for j in range(n_model)]
+        spec['dof'] = 0
+    return spec
+
+
+def falsy_obj(rng, kind):
+    return {'rdms': falsy_rdms, 'dataset': falsy_dataset, 'temporal': lambda r: falsy_dataset(r, True),
+            'model': falsy_model, 'result': falsy_result}[kind](rng)
+
+
+def gen_falsy(rng, reps=1):
+    """directed sessions: objects whose fields are falsy-but-valid through both file types, path and
+    handle, read back and compared field by field (incl. the test outputs of a Result)"""
+    for _ in range(reps):
+        plan = [('rdms', None), ('dataset', None), ('temporal', None), ('model', None), ('model', 'Model'),
+                ('result', 'eval'), ('result', 'ctor'), ('result', 'ctor-var'), ('result', 'ctor-var0')]
+        for kind, sub in plan:
+            if kind == 'result':
+                o = falsy_result(rng, sub)
+            elif sub == 'Model':
+                o = falsy_model(rng, mtype='Model')
+            else:
+                o = falsy_obj(rng, kind)
+            k = o['kind']
+            tp = {'path': True, 'id': 0, 'name': '.h5'}
+            tq = {'path': True, 'id': 1, 'name': '.pkl'}
+            tm = {'path': False, 'id': 2, 'mem': True}
+            tn = {'path': False, 'id': 3, 'mem': rng.random() < 0.5}
+            ops = [{'do': 'save', 'obj': 0, 'target': tp, 'ft': 'hdf5', 'overwrite': False},
+                   {'do': 'load', 'kind': k, 'target': tp, 'ft': rng.choice([None, 'hdf5']) if k != 'model' else 'hdf5'},
+                   {'do': 'save', 'obj': 0, 'target': tq, 'ft': 'pkl', 'overwrite': rng.random() < 0.5},
+                   {'do': 'load', 'kind': k, 'target': tq, 'ft': 'pkl'},
+                   {'do': 'save', 'obj': 0, 'target': tm, 'ft': rng.choice(['hdf5', 'pkl']), 'overwrite': False}]
+            ops.append({'do': 'load', 'kind': k, 'target': tm, 'ft': ops[-1]['ft']})
+            if rng.random() < 0.5:
+                ops += [{'do': 'save', 'obj': 0, 'target': tn, 'ft': 'pkl', 'overwrite': True},
+                        {'do': 'load', 'kind': k, 'target': tn, 'ft': 'pkl'}]
+            if rng.random() < 0.4:
+                ops[0]['via'] = ops[1]['via'] = 'Path'
+            yield {'objs': [o], 'ops': ops}
 
 
 # file name endings: what `load_*` recognises without `file_type` ('.pkl' | '.h5' | 'hdf5', by the
@@ -649,6 +827,17 @@ def generate(rng, tier):
                 {'do': 'load', 'kind': a['kind'], 'target': t, 'ft': ft},
                 {'do': 'save', 'obj': 1, 'target': t, 'ft': ft, 'overwrite': True},
                 {'do': 'load', 'kind': a['kind'], 'target': t, 'ft': ft}]}
+    # overwrite=True on an open handle that already holds an object: every kind, both file types
+    # (the handle must be emptied and rewound by `remove_file` before either writer runs)
+    for kind in ('rdms', 'dataset', 'temporal', 'model', 'result'):
+        for ft in ('hdf5', 'pkl'):
+            a, b = gen_obj(rng, kind), gen_obj(rng, kind)
+            t = {'path': False, 'id': 0, 'mem': rng.random() < 0.5}
+            yield {'objs': [a, b], 'ops': [
+                {'do': 'save', 'obj': 0, 'target': t, 'ft': ft, 'overwrite': False},
+                {'do': 'load', 'kind': a['kind'], 'target': t, 'ft': ft},
+                {'do': 'save', 'obj': 1, 'target': t, 'ft': ft, 'overwrite': True},
+                {'do': 'load', 'kind': a['kind'], 'target': t, 'ft': ft}]}
     # a Result with more than ten models through HDF5 (members come back alphabetically)
     for ext, ft in (('h5', 'hdf5'), ('pkl', 'pkl')):
         t = {'path': True, 'id': 0, 'name': '.' + ext}
@@ -675,6 +864,7 @@ def generate(rng, tier):
                                     {'do': 'load', 'kind': o['kind'], 'target': t, 'ft': ft}]}
     for _ in range(1 if tier == 'quick' else 8):
         yield from gen_pathlike(rng)
+    yield from gen_falsy(rng, 1 if tier == 'quick' else 12)
     for _ in range(n):
         yield gen_case(rng)
 
@@ -1025,8 +1215,99 @@ def _walk(spec, f):
             _walk(v, f)
 
 
-def features(case, impl):
+def _falsy_tags(case):
+    """which falsy-but-valid field values the objects of a session carry (only objects that are saved
+    and read back by the session count: every generated object is)"""
     br = set()
+    for s in case['objs']:
+        k = s['kind']
+        kk = 'temporal' if k == 'dataset' and len(s['shape']) == 3 else k
+        tags = set()
+        if k == 'result':
+            if s['how'] == 'eval':
+                single = len(s['data']['dis']) == 1 and not s['data'].get('history')
+                if single and s['evaluator'] == 'fixed':
+                    tags |= {'falsy:dof0', 'falsy:dof0:eval'}
+            else:
+                if s.get('dof', 1) == 0:
+                    tags.add('falsy:dof0')
+                    if s.get('variances') is not None:
+                        tags.add('falsy:dof0:variances')
+                if all(float(x) == 0 for x in s['noise_ceiling']):
+                    tags.add('falsy:nc0')
+                if all(isinstance(x, (int, float)) and x == 0 for x in s['evaluations']):
+                    tags.add('falsy:evals0')
+                if s.get('variances') is not None and all(x == 0 for x in s['variances']):
+                    tags.add('falsy:variances0')
+                post = s.get('post') or {}
+                for f in ('n_rdm', 'n_pattern'):
+                    v = post.get(f, s.get(f))
+                    if v is None:
+                        tags.add('falsy:n-none')
+                    elif v == 0:
+                        tags.add('falsy:n-zero')
+                if s['method'] == '' or s['cv_method'] == '':
+                    tags.add('falsy:empty-method')
+        if k == 'rdms' and all(x == 0 for row in s['dis'] for x in row if not isinstance(x, str)) \
+                and not any(isinstance(x, str) for row in s['dis'] for x in row):
+            tags.add('falsy:zero-data')
+        if k == 'dataset' and all(not isinstance(x, str) and x == 0 for x in s['meas']):
+            tags.add('falsy:zero-data')
+
+        def visit(d, tags=tags):
+            if d.get('kind') == 'rdms' and 'measure' in d:
+                if d['measure'] == '':
+                    tags.add('falsy:measure-empty')
+                if d['measure'] is None:
+                    tags.add('falsy:measure-none')
+            if d.get('kind') == 'model':
+                if d['name'] == '':
+                    tags.add('falsy:empty-name')
+                if d['type'] in ('Model', 'ModelFixed'):
+                    tags.add('falsy:model-noparams')
+                if d['type'] == 'Model':
+                    tags.add('falsy:model-no-rdm')
+            for fld in ('descriptors',):
+                for _, v in d.get(fld) or []:
+                    py = v.get('py')
+                    if py == 'str' and v['v'] == '':
+                        tags.add('falsy:empty-str')
+                    if (py in ('int', 'float', 'npscalar') and v.get('dtype') != 'bool_' and float(v['v']) == 0) \
+                            or (py == 'nd' and v['shape'] == [] and float(v['v'][0]) == 0):
+                        tags.add('falsy:zero-descriptor')
+                    if (py == 'bool' and v['v'] is False) or (py == 'npscalar' and v.get('dtype') == 'bool_'
+                                                              and not v['v']):
+                        tags.add('falsy:false-descriptor')
+                    if py in ('list', 'tuple') and not v['v']:
+                        tags.add('falsy:empty-list-descriptor')
+                    if py == 'none':
+                        tags.add('falsy:none-descriptor')
+            for fld in ('rdm_descriptors', 'pattern_descriptors', 'obs_descriptors', 'channel_descriptors'):
+                for _, v in d.get(fld) or []:
+                    vals = [e.get('v') if isinstance(e, dict) else e for e in v.get('v', [])]
+                    if vals and all(isinstance(x, str) and x == '' for x in vals):
+                        tags.add('falsy:empty-str-elem-descriptor')
+                    elif vals and all(not isinstance(x, (str, list)) and x is not None and float(x) == 0
+                                      for x in vals) and not v.get('h') and not v.get('nl') \
+                            and v.get('py') in ('list', 'nd') and len(v.get('shape', [0])) == 1:
+                        tags.add('falsy:zero-elem-descriptor')
+        _walk(s, visit)
+        if tags - {'falsy:measure-none', 'falsy:model-noparams', 'falsy:none-descriptor', 'falsy:n-none'}:
+            tags.add('falsy:kind:' + kk)
+        br |= tags
+    # a Result with dof 0 through each file type
+    for op in case['ops']:
+        if op['do'] == 'save':
+            s = case['objs'][op['obj']]
+            if s['kind'] == 'result' and ((s['how'] == 'ctor' and s.get('dof', 1) == 0)
+                                          or (s['how'] == 'eval' and len(s['data']['dis']) == 1
+                                              and not s['data'].get('history') and s['evaluator'] == 'fixed')):
+                br.add('falsy:dof0:' + _ft(op))
+    return br
+
+
+def features(case, impl):
+    br = set(_falsy_tags(case))
     for s in case['objs']:
         k = s['kind']
         br.add('kind:temporal' if k == 'dataset' and len(s['shape']) == 3 else 'kind:' + k)
